@@ -345,7 +345,7 @@ func genPlan(prop, tier string, seed uint64, faults bool) *Plan {
 		mo.MaxCPUs = 32
 	}
 	// offline CPUs: only where discovery itself is the subject
-	mo.AllowOffline = prop == "C16" || prop == "C08"
+	mo.AllowOffline = true // offline cores (20% of the machines)
 	m := machine.Generate(verifrt.NewRand(verifrt.Mix(seed, "machine")), mo)
 	p := &Plan{Policy: pol, Machine: m, Order: int(verifrt.OrderSeeded)}
 	if r.Chance(0.15) {
@@ -379,7 +379,7 @@ func genPlan(prop, tier string, seed uint64, faults bool) *Plan {
 		// weights: run-pod create start update stop remove stop-pod remove-pod reconfigure restart sync
 		w := []int{10, 30, 14, 8, 14, 10, 2, 2, 3, 2, 1, 0}
 		running := g.ctrsIn("running")
-		if pol == "topology-aware" && len(running) > 0 && (prop == "C04" || prop == "C12" || prop == "C05" || prop == "C03" || prop == "C01" || prop == "C09") {
+		if pol == "topology-aware" && len(running) > 0 && (prop == "C04" || prop == "C12" || prop == "C05" || prop == "C03" || prop == "C01" || prop == "C09" || prop == "C13" || prop == "C11") {
 			w[11] = 3
 			for _, c := range running {
 				for _, pd := range g.pods {
@@ -425,6 +425,9 @@ func genPlan(prop, tier string, seed uint64, faults bool) *Plan {
 		}
 		if len(stopped) == 0 {
 			w[5] = 0
+			if len(created) > 0 {
+				w[5] = 2
+			}
 		}
 		if prop == "C14" && r.Chance(0.3) {
 			// out-of-protocol event
@@ -512,7 +515,14 @@ func genPlan(prop, tier string, seed uint64, faults bool) *Plan {
 			g.ctrSt[c.ID] = "stopped"
 			op.Kind, op.ID = "stop", c.ID
 		case 5:
-			c := verifrt.Pick(r, stopped)
+			var c *CtrSpec
+			if len(created) > 0 && (len(stopped) == 0 || r.Chance(0.2)) {
+				// created, never started: removed without being stopped
+				c = verifrt.Pick(r, created)
+				op.Ev = "never-started"
+			} else {
+				c = verifrt.Pick(r, stopped)
+			}
 			g.ctrSt[c.ID] = "removed"
 			op.Kind, op.ID = "remove", c.ID
 		case 6:
